@@ -1,7 +1,10 @@
 """C19 — Penalty decorators leave feasible fitness intact and never reward infeasibility
 (deap/tools/constraint.py)."""
+import array
 import copy
 import itertools
+
+import numpy
 from fractions import Fraction as Fr
 
 from lib import Case
@@ -12,7 +15,9 @@ ANCHORS = [("deap/tools/constraint.py", ["DeltaPenalty", "ClosestValidPenalty"])
 LEVEL = "proof"
 RULE = ("exhaustive: every weight-sign pattern in {+,-,0}^n for n=1..4 (random magnitudes) x {DeltaPenalty, "
         "ClosestValidPenalty} x scalar/per-objective delta x absent/scalar/vector distance, infeasible and feasible, "
-        "random dyadic values; sequences: 2-5 calls through ONE decorator object decorating 1-3 different functions "
+        "random dyadic values; representations (first stream): vectors handed over as tuple / list / numpy.ndarray / array.array / range "
+        "and scalars as int / float / numpy.float64 for delta x distance x both decorators, feasibility returned as bool / "
+        "numpy.bool_ / int / any truthy-falsy object; near-tie weights (+-5e-324, +0.0, -0.0); sequences: 2-5 calls through ONE decorator object decorating 1-3 different functions "
         "(wrappers called in any and in every order), individuals of different fitness classes (sign pattern, number of "
         "objectives), feasible/infeasible mixed, different extras, individuals carrying a stale stored fitness, closest "
         "points made as repaired deepcopy clones carrying a fitness, re-evaluation of the same individual with other extras "
@@ -26,19 +31,19 @@ TRUSTED = ["IEEE-754: sums and products of the small dyadic inputs used here are
            "CPython zip / itertools.repeat / isinstance(_, Sequence) (modelled by SV.upTo and zip3With in "
            "Core/Penalty.lean, exercised by every line)"]
 ASSUMPTIONS = ["distances and alpha are non-negative finite numbers; constants, weights and fitness values are finite "
-               "numbers (no NaN/inf); the distance function returns a number or a Sequence (a numpy array is neither "
-               "and is outside the model)",
+               "numbers (no NaN/inf); the distance function returns a number or a vector (a Sequence or a numpy array)",
                "a zero weight is treated by the code as +1; the statement names no worse direction for it, so the "
                "oracle accepts either direction there while the model follows the code"]
 EXPLANATION = ("Theorems C19.* are proved for every linearly ordered ring, every number of objectives and all "
                "feasibility/distance/closest/evaluation functions; the correspondence ties Core/Penalty.lean to "
                "deap.tools.constraint on exactly-representable inputs, including the call log of the wrapped function. "
-               "The model decorator is a pure function of its arguments (feasibility, constants, distance, weights of THIS "
-               "individual, evaluation function, extras) — theorem C19.decorators_stateless — so every call of a call "
-               "sequence through one decorator instance is compared with the model on its own: any dependence of the "
-               "implementation on earlier calls (cached weights, exhausted iterators), on other functions decorated by the "
-               "same decorator object (C19.wrappers_independent) or on fitness values stored on the individual or on the "
-               "closest point (the model has no such input) is a disagreement and an oracle failure.")
+               "The model decorator is a Lean function of (feasibility, constants, distance, weights of THIS individual, "
+               "evaluation function, extras) and of nothing else. C19.decorators_stateless and C19.wrappers_independent are "
+               "congruence facts that hold of any Lean function; they only spell out which inputs the model has. That the "
+               "IMPLEMENTATION has no other inputs is not proved but TESTED by the sequence streams: every call of a call "
+               "sequence through one decorator object (several decorated functions, any order, stale stored fitnesses, "
+               "re-evaluation) is compared with the model on its own, so a dependence on earlier calls, on other functions "
+               "decorated by the same object or on fitness values stored on the objects is a disagreement and an oracle failure.")
 
 
 def sfr(q):
@@ -67,12 +72,39 @@ def sv_tok(v):
     return "v:" + slist(Fr(x) for x in v["v"])
 
 
-def sv_py(v, ints, seqtype):
-    """the Python object for a scalar-or-vector description"""
+VEC_REPS = ["tuple", "list", "ndarray", "array", "range"]
+SCA_REPS = ["int", "float", "float64"]
+
+
+def sv_py(v, ints, seqtype, rep=None):
+    """the Python object for a scalar-or-vector description.  rep: how a vector is handed over (tuple, list,
+    numpy.ndarray, array.array, range when the values allow it) / how a scalar is (int when integral, float,
+    numpy.float64); default: tuple/list and int/float as `ints`/`seqtype` say."""
     conv = (lambda q: int(Fr(q)) if ints and Fr(q).denominator == 1 else num(q))
     if "s" in v:
+        if rep == "float64":
+            return numpy.float64(num(v["s"]))
+        if rep == "float":
+            return num(v["s"])
+        if rep == "int" and Fr(v["s"]).denominator == 1:
+            return int(Fr(v["s"]))
         return conv(v["s"])
-    return seqtype(conv(x) for x in v["v"])
+    vals = [Fr(x) for x in v["v"]]
+    if rep == "ndarray":
+        return numpy.array([num(x) for x in vals], dtype=float)
+    if rep == "array":
+        return array.array("d", [num(x) for x in vals])
+    if rep == "range" and len(vals) >= 1 and all(x.denominator == 1 for x in vals):
+        step = int(vals[1] - vals[0]) if len(vals) > 1 else 1
+        if step != 0 and all(vals[i + 1] - vals[i] == step for i in range(len(vals) - 1)):
+            r = range(int(vals[0]), int(vals[0]) + step * len(vals), step)
+            assert [Fr(x) for x in r] == vals
+            return r
+    if rep == "list":
+        return [conv(x) for x in vals]
+    if rep == "tuple":
+        return tuple(conv(x) for x in vals)
+    return seqtype(conv(x) for x in vals)
 
 
 def sv_at(v, i, n):
@@ -102,9 +134,9 @@ _fit_classes = {}
 
 
 def fit_class(ws):
-    key = tuple(ws)
+    key = tuple(repr(w) for w in ws)          # -0.0 and 0.0 are different fitness classes
     if key not in _fit_classes:
-        _fit_classes[key] = type("Fit", (base.Fitness,), {"weights": key})
+        _fit_classes[key] = type("Fit", (base.Fitness,), {"weights": tuple(ws)})
     return _fit_classes[key]
 
 
@@ -120,6 +152,15 @@ def worse_ok(w, pen, base_v, move):
     if w < 0:
         return pen == base_v + move
     return pen == base_v - move or pen == base_v + move
+
+
+_GID = itertools.count(1)
+
+
+def gkey(individual):
+    """the evaluation function is a function of the GENOTYPE (not of the object): a wrapper that memoises by
+    genotype is legitimate"""
+    return tuple(individual)
 
 
 class Call(object):
@@ -138,14 +179,15 @@ class Call(object):
         self.n = len(self.ws)
         self.ints = bool(d.get("ints"))
         self.seqtype = list if d.get("lists") else tuple
-        wpy = tuple(int(w) if self.ints and w.denominator == 1 else num(w) for w in self.ws)
+        wpy = tuple(-0.0 if ws_ == "-0.0" else (int(w) if self.ints and w.denominator == 1 else num(w))
+                    for w, ws_ in zip(self.ws, d["w"]))
         if reuse is not None and 0 <= reuse < len(earlier):
             self.x = earlier[reuse].x
         else:
-            self.x = Ind([1, 2, 3])
+            self.x = Ind([next(_GID), 1, 7])        # every individual has its own genotype
             self.x.fitness = fit_class(wpy)()
         cid = d.get("cid", 1)
-        self.c = self.x if (kind == "closest" and cid == 0) else Ind([0, 0, 0])
+        self.c = self.x if (kind == "closest" and cid == 0) else Ind([self.x[0], 0, 7])
         self.f0 = [Fr(v) for v in d["f0"]]
         self.fc = self.f0 if self.c is self.x else [Fr(v) for v in d.get("fc", d["f0"])]
         self.feas = bool(d["feas"])
@@ -191,14 +233,11 @@ def evaluate(d):
     nf = max(1, int(d.get("nfuncs", 1)))
     foff = [Fr(v) for v in d.get("foff", [])] + [Fr(0)] * nf
     keep = []
-    owner = {}                  # id(object) -> Call whose individual / closest point it is
-    table = {}
+    table = {}                  # genotype -> fitness table of the undecorated functions
     for c in cs:
-        owner[id(c.x)] = c
-        owner.setdefault(id(c.c), c)
-        table[id(c.x)] = c.f0
+        table[gkey(c.x)] = c.f0
         if c.c is not c.x:
-            table[id(c.c)] = c.fc
+            table[gkey(c.c)] = c.fc
     state = {"cur": None}
     calls, feas_calls = [], []
 
@@ -206,13 +245,21 @@ def evaluate(d):
         def func(individual, shift=0, *a, **kw):
             calls.append((individual, shift, a, kw, j))
             cur = state["cur"]
-            return cur.seqtype(num(v + Fr(shift) + foff[j]) for v in table[id(individual)])
+            return cur.seqtype(num(v + Fr(shift) + foff[j]) for v in table[gkey(individual)])
         func.__name__ = "func%d" % j
         return func
 
     def feasibility(individual):
         feas_calls.append(individual)
-        return state["cur"].feas
+        cur = state["cur"]
+        rep = cur.d.get("feas_rep", "bool")
+        if rep == "numpy":
+            return numpy.bool_(cur.feas)          # e.g. numpy.all(numpy.array(ind) > 0)
+        if rep == "int":
+            return 1 if cur.feas else 0
+        if rep == "truthy":
+            return ["ok"] if cur.feas else None   # any truthy / falsy object
+        return cur.feas
 
     def set_fit(obj, vals):
         if vals is not None and len(vals) == len(obj.fitness.weights):
@@ -223,30 +270,30 @@ def evaluate(d):
         if cur.cmode in ("self", "plain"):
             return cur.c
         c = copy.deepcopy(individual)           # the idiomatic way: clone the individual, repair the clone
-        c[:] = [0, 0, 0]
+        c[:] = [individual[0], 0, 7]            # the repaired genotype
         if cur.cmode == "cstale":
             set_fit(c, cur.cfit)
         elif cur.cmode == "fresh":
             del c.fitness.values
         keep.append(c)
-        table[id(c)] = cur.fc
+        table[gkey(c)] = cur.fc
         cur.c = c
         return c
 
     def distance1(individual):
         c = state["cur"]
-        return sv_py(c.cur_dist(), c.ints, c.seqtype)
+        return sv_py(c.cur_dist(), c.ints, c.seqtype, c.d.get("dist_rep"))
 
     def distance2(f_ind, individual):
         cur = state["cur"]
         if f_ind is cur.c and individual is cur.x:
-            return sv_py(cur.cur_dist(), cur.ints, cur.seqtype)
+            return sv_py(cur.cur_dist(), cur.ints, cur.seqtype, cur.d.get("dist_rep"))
         # wrong argument order / wrong objects: a visibly different distance of the same shape
-        return sv_py(sv_add(cur.cur_dist(), [Fr(1000)]), cur.ints, cur.seqtype)
+        return sv_py(sv_add(cur.cur_dist(), [Fr(1000)]), cur.ints, cur.seqtype, cur.d.get("dist_rep"))
 
     if k == "delta":
         cls = constraint.DeltaPenality if d.get("alias") else constraint.DeltaPenalty
-        deco = cls(feasibility, sv_py(d["delta"], dints, dseq), *([distance1] if has_dist else []))
+        deco = cls(feasibility, sv_py(d["delta"], dints, dseq, d.get("delta_rep")), *([distance1] if has_dist else []))
     else:
         cls = constraint.ClosestValidPenality if d.get("alias") else constraint.ClosestValidPenalty
         alpha = Fr(d["alpha"])
@@ -285,7 +332,16 @@ def evaluate(d):
         ident = lambda o: 0 if o is x else (1 if o is c.c else 9)
         call_tok = ",".join("%d:%s:%s%s" % (ident(i), sfr(Fr(s_)), tag_of(a, kw), "" if j == fi else "!func%d" % j)
                             for (i, s_, a, kw, j) in calls1) or "-"
-        res_tok = "raise" if exc is not None else slist(Fr(v) for v in res)
+        badres = None
+        if exc is None:
+            try:
+                res_tok = slist(Fr(v) for v in res)
+            except (TypeError, ValueError):
+                res_tok = "<%r>" % (res,)
+                badres = "decorated function returned %r: not one number per objective" % (res,)
+                res = tuple(0 for _ in res)
+        else:
+            res_tok = "raise"
         tag_sent = tag_of(args, kwargs)
         if k == "delta":
             line = "C19 delta %d %s %s %s %s %s %s" % (feas, slist(ws), sv_tok(d["delta"]), sv_tok(dist_desc),
@@ -299,6 +355,8 @@ def evaluate(d):
 
         # ---------------- oracle: the statement itself, on the implementation's outputs ----------------
         orc = None
+        if badres is not None and first_orc is None:
+            first_orc = badres
         extras_ok = lambda cl: (Fr(cl[1]) == shift and list(cl[2]) == args and cl[3] == kwargs and cl[4] == fi)
         premise = True
         if feas:
@@ -354,6 +412,11 @@ def evaluate(d):
             if exc2 is not None or len(res2) != len(res):
                 orc = "second call with a larger distance failed: %r %r" % (res2, exc2)
             else:
+                try:
+                    res2 = [Fr(v) for v in res2]
+                except (TypeError, ValueError):
+                    orc = "second call returned %r: not one number per objective" % (res2,)
+                    res2 = [Fr(v) for v in res]
                 for i in range(n):
                     if ws[i] * Fr(res2[i]) > ws[i] * Fr(res[i]):
                         orc = "objective %d improved (%s -> %s) when the distance grew" % (i, res[i], res2[i])
@@ -420,6 +483,33 @@ def rand_extras(rng, d):
         d["kwargs"] = dict((rng.choice(["u", "v", "w"]), rng.choice([0, 2, "z"])) for _ in range(rng.randint(1, 2)))
 
 
+def progression(rng, n, nonneg):
+    """n integers in arithmetic progression (what a `range` object can hold)"""
+    step = rng.choice([1, 1, 2, 3, -1, -2])
+    lo = rng.randint(0, 9) if nonneg else rng.randint(-9, 9)
+    if step < 0:
+        lo += -step * (n - 1)
+    return [sfr(Fr(lo + i * step)) for i in range(n)]
+
+
+def set_reps(rng, d, n, force=None):
+    """how the constants / the distance / the feasibility status are handed over as Python objects"""
+    force = force or {}
+    for key, nonneg in (("delta", False), ("dist", True)):
+        v = d.get(key)
+        if not v:
+            continue
+        rep = force.get(key) or rng.choice(["default", "default"] + (VEC_REPS if "v" in v else SCA_REPS))
+        if rep == "default":
+            continue
+        if rep == "range" and "v" in v:
+            v = d[key] = {"v": progression(rng, len(v["v"]), nonneg)}
+        if rep == "int" and "s" in v and Fr(v["s"]).denominator != 1:
+            v = d[key] = {"s": sfr(Fr(rng.randint(0, 40)))}
+        d[key + "_rep"] = rep
+    d["feas_rep"] = force.get("feas") or rng.choice(["bool", "bool", "numpy", "int", "truthy"])
+
+
 def make(rng, k, signs, feas, dkind, distkind, big=False, missize=False):
     n = len(signs)
     ws = [sfr(s * rng.choice(MAGS)) for s in signs]
@@ -439,6 +529,7 @@ def make(rng, k, signs, feas, dkind, distkind, big=False, missize=False):
     if rng.random() < 0.2:
         d["alias"] = True
     rand_extras(rng, d)
+    set_reps(rng, d, n)
     if missize:
         which = rng.random()
         m = rng.choice([0, max(0, n - 1), n + 1, n + 2])
@@ -483,7 +574,7 @@ def make_seq(rng):
         c = make(rng, k, signs, feas, dkind, distkind)
         if base is None:
             base = c
-        c = dict((key, v) for key, v in c.items() if key not in ("k", "delta", "alpha", "alias"))
+        c = dict((key, v) for key, v in c.items() if key not in ("k", "delta", "delta_rep", "alpha", "alias"))
         if reuse is not None:
             src = calls[reuse]
             c["reuse"] = reuse
@@ -507,10 +598,49 @@ def make_seq(rng):
     if nfuncs > 1:
         d["nfuncs"] = nfuncs
         d["foff"] = [sfr(Fr(v)) for v in rng.sample([0, 1, -3, 16, Fr(5, 2), Fr(-7, 4), 100], nfuncs)]
-    for key in ("delta", "alpha", "alias", "ints", "lists"):
+    for key in ("delta", "delta_rep", "alpha", "alias", "ints", "lists"):
         if key in base:
             d[key] = base[key]
     return d
+
+
+def make_reps(rng):
+    """every way of handing over a vector / a scalar / a feasibility status, for both decorators (fixed family
+    list, random values): vectors as tuple, list, numpy.ndarray, array.array, range; scalars as int, float,
+    numpy.float64; feasibility as bool, numpy.bool_, int, any truthy / falsy object"""
+    out = []
+    for k in ("delta", "closest"):
+        for drep in VEC_REPS + SCA_REPS:
+            for trep in VEC_REPS + SCA_REPS:
+                n = rng.randint(1, 4)
+                signs = [rng.choice([1, -1, -1, 0]) for _ in range(n)]
+                d = make(rng, k, signs, False, "vector" if drep in VEC_REPS else "scalar",
+                         "vector" if trep in VEC_REPS else "scalar")
+                for key in ("delta_rep", "dist_rep"):
+                    d.pop(key, None)
+                set_reps(rng, d, n, {"delta": drep, "dist": trep})
+                out.append(d)
+        for frep in ("bool", "numpy", "int", "truthy"):
+            for feas in (True, False):
+                n = rng.randint(1, 3)
+                d = make(rng, k, [rng.choice([1, -1]) for _ in range(n)], feas, "scalar", "scalar")
+                d["feas_rep"] = frep
+                out.append(d)
+    return out
+
+
+def make_neartie(rng):
+    """weights at the boundary of `w >= 0`: the smallest positive / negative doubles, +0.0 and -0.0"""
+    tiny = sfr(Fr(5e-324))
+    out = []
+    for k in ("delta", "closest"):
+        for n in (1, 2, 3):
+            for _ in range(6):
+                d = make(rng, k, [1] * n, False, rng.choice(["scalar", "vector"]), rng.choice(["scalar", "vector"]))
+                d["w"] = [rng.choice([tiny, "-" + tiny, "0", "-0.0"]) for _ in range(n)]
+                d.pop("ints", None)
+                out.append(d)
+    return out
 
 
 def make_orders(rng):
@@ -522,7 +652,7 @@ def make_orders(rng):
     signs = [rng.choice([1, -1, -1, 0]) for _ in range(n)]
     proto_f = make(rng, k, signs, True, "scalar", "scalar")
     proto_i = make(rng, k, signs, False, "scalar", "scalar")
-    strip = lambda c: dict((key, v) for key, v in c.items() if key not in ("k", "delta", "alpha", "alias"))
+    strip = lambda c: dict((key, v) for key, v in c.items() if key not in ("k", "delta", "delta_rep", "alpha", "alias"))
     out = []
     for order in itertools.permutations(range(nfuncs)):
         calls = []
@@ -533,7 +663,7 @@ def make_orders(rng):
                 calls.append(c)
         d = {"k": "seq", "deco": k, "has_dist": True, "calls": calls, "nfuncs": nfuncs,
              "foff": [sfr(Fr(v)) for v in rng.sample([0, 1, -3, 16, Fr(5, 2), 100], nfuncs)]}
-        for key in ("delta", "alpha"):
+        for key in ("delta", "delta_rep", "alpha"):
             if key in proto_f:
                 d[key] = proto_f[key]
         out.append(d)
@@ -543,6 +673,11 @@ def make_orders(rng):
 def generate(tier, rng, mult):
     thorough = tier == "thorough"
     reps = (8 if thorough else 1) * mult
+    for _ in range(reps * 2):
+        for d in make_reps(rng):
+            yield d
+        for d in make_neartie(rng):
+            yield d
     for _ in range(reps):
         for n in range(1, 5):
             for signs in itertools.product([1, -1, 0], repeat=n):
